@@ -21,6 +21,15 @@ REPLAY_PRE = 'import pyxinject; pyxinject.inject(); from chython import smiles, 
 # ---------------------------------------------------------------------------------------------------------
 # printing the inputs of the model
 
+def mstr(m):
+    """str(m), or a spelling of atoms and bonds when the SMILES writer raises (it does, KeyError in the stereo code, for some
+    molecules with two stereogenic double bonds on one atom: not this property)"""
+    try:
+        return str(m)
+    except Exception:
+        return '~' + '.'.join(f'{a.atomic_symbol}{n}' for n, a in m._atoms.items()) + '|' + \
+               ','.join(f'{n}{"-=#:~~~~"[int(bd) - 1]}{k}{"" if bd.stereo is None else "tf"[bd.stereo]}' for n, k, bd in m.bonds())
+
 def pmol_term(m, packed):
     """what pack reads from the molecule; coordinate bytes are copied from the real pack (F16 is tied separately)"""
     atoms = []
@@ -55,6 +64,13 @@ Definition unpacked_eqb (u v : unpacked) : bool :=
   list_eqb uatom_eqb (up_atoms u) (up_atoms v) &&
   list_eqb (pair_eqb Z.eqb (list_eqb (pair_eqb Z.eqb Z.eqb))) (up_adj u) (up_adj v) &&
   list_eqb (pair_eqb (pair_eqb Z.eqb Z.eqb) Bool.eqb) (up_ct u) (up_ct v) && (up_size u =? up_size v).
+Definition tz_eqb := pair_eqb Z.eqb (pair_eqb Z.eqb Z.eqb).
+Definition ladj_eqb (x y : ladj) : bool :=
+  list_eqb (pair_eqb Z.eqb (list_eqb (pair_eqb Z.eqb (pair_eqb Z.eqb (option_eqb Bool.eqb))))) x y.
+Definition api_eqb (x y : list uatom * ladj * Z) : bool :=
+  list_eqb uatom_eqb (fst (fst x)) (fst (fst y)) && ladj_eqb (snd (fst x)) (snd (fst y)) && (snd x =? snd y).
+Definition dicts_ok (paths : list (list Z)) (atoms : list patom) (t c : list (Z * (Z * Z))) (cnt : Z) : bool :=
+  list_eqb tz_eqb (terminals_of paths) t && list_eqb tz_eqb (centers_of paths) c && (cis_trans_count atoms =? cnt).
 Definition lens_eqb (x y : list Z * list Z * list Z) : bool :=
   list_eqb Z.eqb (fst (fst x)) (fst (fst y)) && list_eqb Z.eqb (snd (fst x)) (snd (fst y)) && list_eqb Z.eqb (snd x) (snd y).
 '''
@@ -89,6 +105,16 @@ def boundary_molecules(rng, n_random):
             m.add_bond(i, i + 1, rng.choice([1, 2, 3, 4, 8, 1, 1]), _skip_calculation=True)
         m.fix_structure()
         out.append(('chain', m))
+    # two stereogenic double bonds sharing an atom (hypervalent S / P), every insertion order of the shared atom; cumulenes
+    for sm in ('C/S(C)(=C(/F)Cl)=C(F)Cl', 'C/S(C)(=C(F)Cl)=C(/F)Cl', 'S(/C)(C)(=C(/F)Cl)=C(F)Cl', 'F/C(Cl)=S(/C)(C)=C(F)Cl', 'C/S(C)(=C(/F)Cl)=C(\\F)Cl',
+               'F/C(Cl)=S(/C)(=O)C', 'F/C(Cl)=P(/C)(C)C', 'F/C(Cl)=C=C=C(/F)Cl', 'F/C(Cl)=C=C=C=C=C(/F)Cl', 'C/C=C/C=C\\C=C/C'):
+        try:
+            m = smiles(sm)
+        except Exception:
+            continue
+        out.append(('ct-shared', m))
+        for _ in range(3):
+            out.append(('ct-shared', corpus.renumber(m, rng)))
     # atom count above 255: the 12 bit count straddles two header bytes
     m = MoleculeContainer()
     for i in range(300):
@@ -135,32 +161,47 @@ def corr(ck, unpack_mod, mols):
         try:
             data = m.pack(compressed=False)
         except Exception as e:
-            ck.counterexample(f'pack-raises:{kind}:{m}', f'pack raises {type(e).__name__} on a molecule within the format limits',
-                              {'smiles': str(m), 'numbers': list(m._atoms)}, repr(e), 'bytes', 'format limits',
-                              replay_py=REPLAY_PRE + f'print(smiles({str(m)!r}).pack(compressed=False))')
+            ck.counterexample(f'pack-raises:{kind}:{mstr(m)}', f'pack raises {type(e).__name__} on a molecule within the format limits',
+                              {'smiles': mstr(m), 'numbers': list(m._atoms)}, repr(e), 'bytes', 'format limits',
+                              replay_py=REPLAY_PRE + f'print(smiles({mstr(m)!r}).pack(compressed=False))')
             continue
-        ck.case((kind, str(m), tuple(m._atoms)), nontrivial=len(m) > 1)
+        ck.case((kind, mstr(m), tuple(m._atoms)), nontrivial=len(m) > 1)
         ck.count('mol:' + kind)
         ck.count(f'bonds_mod8={m.bonds_count % 8}')
         ck.count(f'cis_trans={min(m._cis_trans_count, 3)}')
         pm = pmol_term(m, data)
         cases.append(f'pyres_eqb (list_eqb Z.eqb) (pack {pm}) (Ok {lst(list(data), zraw)})')
-        meta.append(('pack', kind, str(m)))
+        meta.append(('pack', kind, mstr(m)))
         cases.append(f'(pack_size {pm} =? {len(data)})')
-        meta.append(('pack_size', kind, str(m)))
+        meta.append(('pack_size', kind, mstr(m)))
         # the declarative bit-field layout (PackSpec.layout_v2), evaluated, gives the real bytes
         cases.append(f'list_eqb Z.eqb (bytes_of_bits (layout_v2 {pm})) {lst(list(data), zraw)}')
-        meta.append(('layout_v2', kind, str(m)))
+        meta.append(('layout_v2', kind, mstr(m)))
         # the hypothesis of the round-trip theorems holds for the real molecule
         cases.append(f'pack_ok {pm}')
-        meta.append(('pack_ok', kind, str(m)))
+        meta.append(('pack_ok', kind, mstr(m)))
         mol2, ct2, size2 = unpack_mod.unpack(data)
         cases.append(f'pyres_eqb unpacked_eqb (unpack {lst(list(data), zraw)}) (Ok {unpacked_term(mol2, ct2, size2, data)})')
-        meta.append(('unpack', kind, str(m)))
+        meta.append(('unpack', kind, mstr(m)))
         cases.append(f'pyres_eqb Z.eqb (mol_pack_len {lst(list(data), zraw)}) (Ok {MoleculeContainer.pack_len(data, compressed=False)})')
-        meta.append(('pack_len', kind, str(m)))
+        meta.append(('pack_len', kind, mstr(m)))
+        # version 0 (no writer in the repository): the bytes of the declarative layout_v0 == the independent Python
+        # version 0 writer, and the real decoder on them == the model
+        if kind != 'element' or len(cases) % 5 == 0:
+            d0 = layout_oracle(m, version=0, terminals_from_dict=True)
+            if d0 is not None:
+                ck.count('mol:v0')
+                cases.append(f'list_eqb Z.eqb (bytes_of_bits (layout_v0 {pm})) {lst(list(d0), zraw)}')
+                meta.append(('layout_v0', kind, mstr(m)))
+                try:
+                    mol0, ct0, size0 = unpack_mod.unpack(d0)
+                    exp0 = f'Ok {unpacked_term(mol0, ct0, size0, d0)}'
+                except (IndexError, KeyError) as e:
+                    exp0 = f'Err {type(e).__name__}'
+                cases.append(f'pyres_eqb unpacked_eqb (unpack {lst(list(d0), zraw)}) ({exp0})')
+                meta.append(('unpack_v0', kind, mstr(m)))
     ck.sample({'model_call': cases[0][:300], 'of': meta[0]})
-    ok, failing, log = coqcases.run_cases('c10', 'Pack PackSpec', cases, extra=EXTRA, shard=150)
+    ok, failing, log = coqcases.run_cases('c10', 'Pack PackSpec PackSpecV0 PackStereo', cases, extra=EXTRA, shard=150)
     ck.oblige('correspondence: transpiled _pack_v2.pyx/_unpack_v0v2.pyx == Coq model (byte exact)', ok and not failing, 'correspondence',
               log or str([meta[i] for i in failing[:5]]))
     ck.extra['correspondence_cases'] = ck.extra.get('correspondence_cases', 0) + len(cases)
@@ -169,10 +210,10 @@ def corr(ck, unpack_mod, mols):
         # molecules and on renumbered / re-ordered variants of them, before falling back to `unchecked`
         import random as _r
         rng = _r.Random(ck.seed + 1)
-        bad = {(meta[i][1], meta[i][2]) for i in failing} if failing else {(k, str(m)) for k, m in mols}
+        bad = {(meta[i][1], meta[i][2]) for i in failing} if failing else {(k, mstr(m)) for k, m in mols}
         n = 0
         for kind, m in mols:
-            if (kind, str(m)) not in bad or n >= 60:
+            if (kind, mstr(m)) not in bad or n >= 60:
                 continue
             n += 1
             check_molecule(ck, kind, m, tag='-directed')
@@ -182,6 +223,101 @@ def corr(ck, unpack_mod, mols):
                 except Exception:
                     break
         ck.unchecked('correspondence Pack model vs .pyx codecs', log[-1500:], [repr(meta[i]) for i in failing[:20]])
+    return ok and not failing
+
+
+def only_labels_moved(m, u):
+    """the known finding: nothing but the cis/trans labels differs and two stereogenic double bonds share an atom"""
+    strip = lambda o: (o[0], [(a, [(k, od) for k, od, _ in nb]) for a, nb in o[1]])
+    return observe(u) != observe(m) and strip(observe(u)) == strip(observe(m)) and shares_atom(m)
+
+
+def report_label_move(ck, m, u, how):
+    ck.counterexample('cis-trans-shared-atom', f'{how} moves a cis/trans label to another double bond (two stereogenic double bonds share an atom)',
+                      {'numbers': list(m._atoms), 'labels': labels(m), 'paths': [list(p) for p in m.stereogenic_cumulenes]}, labels(u), labels(m),
+                      'API round trip', replay_py=REPLAY_PRE + "m=smiles('C/S(C)(=C(/F)Cl)=C(F)Cl'); u=MoleculeContainer.unpack(m.pack()); "
+                      "print([(n,k,b.stereo) for n,nb in m._bonds.items() for k,b in nb.items() if b.stereo is not None], [(n,k,b.stereo) for n,nb in u._bonds.items() for k,b in nb.items() if b.stereo is not None])")
+
+
+def labels(m):
+    return sorted((n, k, bd.stereo) for n, nb in m._bonds.items() for k, bd in nb.items() if bd.stereo is not None)
+
+
+def shares_atom(m):
+    """two even stereogenic cumulene paths share an atom (the atom-keyed terminals / centers dicts then lose an entry)"""
+    seen = set()
+    for path in m.stereogenic_cumulenes:
+        if len(path) % 2:
+            continue
+        i = len(path) // 2
+        keys = {path[0], path[-1], path[i], path[i - 1]}
+        if keys & seen:
+            return True
+        seen |= keys
+    return False
+
+
+def api_term(mol, size, data):
+    """result of MoleculeContainer.unpack as the model's (atoms, labelled adjacency, size)"""
+    atoms = []
+    for i, (n, a) in enumerate(mol._atoms.items()):
+        xy = list(data[4 + 9 * i + 4: 4 + 9 * i + 8])
+        ngb = data[4 + 9 * i + 1] & 0x0f
+        atoms.append(f'(mkUAtom {zraw(n)} {zraw(ngb)} {zraw(a.atomic_number)} {opt(a._isotope, zraw)} {opt(a._stereo, b)} '
+                     f'{opt(a._implicit_hydrogens, zraw)} {zraw(a._charge)} {b(a._is_radical)} {lst(xy, zraw)})')
+    adj = lst([tup(zraw(n), lst([tup(zraw(k), tup(zraw(bd._order), opt(bd._stereo, b))) for k, bd in nb.items()])) for n, nb in mol._bonds.items()])
+    return f'({lst(atoms)}, {adj}, {zraw(size)})'
+
+
+def corr_api(ck, mols):
+    """the Python side around the codecs (model: PackStereo): the terminals / centers dicts and the count derived from
+    the stereogenic cumulene paths, the hypotheses of the API level round-trip theorem evaluated on the real molecule,
+    and MoleculeContainer.unpack (decode + re-attachment of the labels) against api_unpack"""
+    from chython import MoleculeContainer
+    cases, meta = [], []
+    paths_changed = []
+    for kind, m in mols:
+        if kind == 'element' and len(cases) % 7:
+            continue
+        data = bytes(m.pack(compressed=False))
+        pm = pmol_term(m, data)
+        paths = [list(p) for p in m.stereogenic_cumulenes]
+        pt = lst([lst(p, zraw) for p in paths])
+        dl = lambda d: lst([tup(zraw(k), tup(zraw(v[0]), zraw(v[1]))) for k, v in d.items()])
+        ck.case(('api', kind, mstr(m), tuple(m._atoms)), nontrivial=bool(paths))
+        ck.count(f'api:even_paths={min(3, sum(len(p) % 2 == 0 for p in paths))}')
+        cases.append(f'dicts_ok {pt} (pm_atoms {pm}) {dl(m._stereo_cis_trans_terminals)} {dl(m._stereo_cis_trans_centers)} {m._cis_trans_count}')
+        meta.append(('dicts', kind, mstr(m)))
+        u, size = MoleculeContainer.unpack(data, compressed=False, _return_pack_length=True)
+        upaths = [list(p) for p in u.stereogenic_cumulenes]
+        if upaths != paths:
+            paths_changed.append((kind, mstr(m)))
+        cases.append(f'pyres_eqb api_eqb (api_unpack {lst([lst(p, zraw) for p in upaths])} {lst(list(data), zraw)}) (Ok {api_term(u, size, data)})')
+        meta.append(('api_unpack', kind, mstr(m)))
+        # the theorem as a test: hypotheses true on the real molecule -> the real API round trip keeps the labels
+        same = labels(u) == labels(m)
+        ck.count('api:labelled' if labels(m) else 'api:unlabelled')
+        ck.count('api:shares_atom' if shares_atom(m) else 'api:disjoint_paths')
+        cases.append(f'implb (pack_ok (api_pmol (pm_atoms {pm}) {pt}) && labels_sym_b (pm_atoms {pm}) && ct_consistent_b (pm_atoms {pm}) {pt}) {b(same)}')
+        meta.append(('api_theorem_instance', kind, mstr(m)))
+        # ordinary molecules (paths without shared atoms) satisfy the hypotheses
+        if not shares_atom(m):
+            cases.append(f'labels_sym_b (pm_atoms {pm}) && ct_consistent_b (pm_atoms {pm}) {pt}')
+            meta.append(('api_hypotheses', kind, mstr(m)))
+    ok, failing, log = coqcases.run_cases('c10a', 'Pack PackSpec PackStereo', cases, extra=EXTRA, shard=150)
+    ck.oblige('correspondence: terminals/centers dicts, _cis_trans_count, MoleculeContainer.unpack label re-attachment == Coq model (PackStereo)', ok and not failing,
+              'correspondence', log or str([meta[i] for i in failing[:5]]))
+    ck.oblige('assumption of the API level theorem: the stereogenic cumulene paths of the unpacked molecule are those of the original', not paths_changed,
+              'correspondence', str(paths_changed[:5]))
+    ck.extra['correspondence_cases'] = ck.extra.get('correspondence_cases', 0) + len(cases)
+    if not ok or failing:
+        bad = {(meta[i][1], meta[i][2]) for i in failing}
+        for kind, m in mols:
+            if (kind, mstr(m)) in bad:
+                check_molecule(ck, kind, m, tag='-directed')
+        ck.unchecked('correspondence PackStereo model vs MoleculeContainer.pack/unpack Python side', log[-1500:], [repr(meta[i]) for i in failing[:20]])
+    if paths_changed:
+        ck.unchecked('stereogenic cumulene paths change in the round trip', str(paths_changed[:10]))
     return ok and not failing
 
 
@@ -206,23 +342,23 @@ def corr_malformed(ck, unpack_mod, mols, rng):
                 exp = 'Err IndexError'
             except Exception as e:
                 exp = None
-            ck.case(('trunc', str(m), c))
+            ck.case(('trunc', mstr(m), c))
             ck.count('malformed:truncated')
             if exp is None:
                 ck.count('malformed:truncated-not-indexerror')
                 continue
             cases.append(f'pyres_eqb unpacked_eqb (unpack {lst(list(data[:c]), zraw)}) ({exp})')
-            meta.append(('trunc', str(m), c))
+            meta.append(('trunc', mstr(m), c))
             pl = 'Err IndexError' if c == 0 else None
             if c == 0:
                 cases.append(f'pyres_eqb Z.eqb (mol_pack_len {lst([], zraw)}) (Err IndexError)')
-                meta.append(('pack_len-empty', str(m), c))
+                meta.append(('pack_len-empty', mstr(m), c))
         for _ in range(12 if ck.tier == 'quick' else 60):
             bb = bytearray(data)
             i = rng.randrange(len(bb))
             bb[i] = rng.randrange(256)
             bb = bytes(bb)
-            ck.case(('corrupt', str(m), i, bb[i]))
+            ck.case(('corrupt', mstr(m), i, bb[i]))
             hac = bb[1] << 4 | bb[2] >> 4
             if any(not 1 <= bb[4 + 9 * j + 3] & 0x7f <= 118 for j in range(hac) if 4 + 9 * j + 3 < len(bb)):
                 ck.count('malformed:corrupt-invalid-element')     # elements[atomic_number] is outside the model
@@ -241,7 +377,7 @@ def corr_malformed(ck, unpack_mod, mols, rng):
                 ck.count('malformed:corrupt-undefined(' + type(e).__name__ + ')')
                 continue
             cases.append(f'pyres_eqb unpacked_eqb (unpack {lst(list(bb), zraw)}) ({exp})')
-            meta.append(('corrupt', str(m), i, bb[i]))
+            meta.append(('corrupt', mstr(m), i, bb[i]))
             if bb[0] not in (0, 2):
                 try:
                     MoleculeContainer.pack_len(bb, compressed=False)
@@ -250,7 +386,7 @@ def corr_malformed(ck, unpack_mod, mols, rng):
                     e2 = 'Err ValueError'
                 if e2:
                     cases.append(f'pyres_eqb Z.eqb (mol_pack_len {lst(list(bb[:6]), zraw)}) ({e2})')
-                    meta.append(('pack_len-header', str(m), i, bb[i]))
+                    meta.append(('pack_len-header', mstr(m), i, bb[i]))
     # every bit of the 12 bit cis/trans count of the header, with enough (arbitrary) records behind a valid pack: counts
     # above 2047 cannot come from a molecule with at most 4095 atoms, the model and the theorems cover them nevertheless
     from chython import smiles
@@ -302,8 +438,45 @@ def corr_malformed(ck, unpack_mod, mols, rng):
     for kind, m in picked[:10]:
         data = bytes(m.pack(compressed=False))
         cases.append(f'pyres_eqb (list_eqb Z.eqb) (mol_pack true {pmol_term(m, data)}) (Ok {lst(list(data), zraw)})')
-        meta.append(('mol_pack', str(m)))
-    ok, failing, log = coqcases.run_cases('c10m', 'Pack PackSpec PackApi', cases, extra=EXTRA, shard=150)
+        meta.append(('mol_pack', mstr(m)))
+    # molecules the limits check accepts although the format cannot carry them (C10_mol_pack_check_complete_refuted):
+    # private-attribute values wrap exactly as the C arithmetic of the model says; non-positive atom numbers
+    def one_carbon(n=1, h=4, charge=0):
+        mm = MoleculeContainer()
+        mm.add_atom('C', n, _skip_calculation=True)
+        mm.fix_structure()
+        mm._atoms[n]._implicit_hydrogens = h
+        mm._atoms[n]._charge = charge
+        mm.flush_cache()
+        return mm
+    for label, kw in (('h7', dict(h=7)), ('h8', dict(h=8)), ('charge12', dict(h=0, charge=12)), ('charge-5', dict(h=0, charge=-5)), ('zero', dict(n=0))):
+        mm = one_carbon(**kw)
+        ck.case(('unrepresentable', label))
+        ck.count('malformed:accepted-unrepresentable')
+        try:
+            data = bytes(mm.pack(compressed=False))
+            mol2, ct2, size2 = unpack_mod.unpack(data)
+        except Exception as e:
+            ck.count('malformed:accepted-unrepresentable-raises')
+            continue
+        cases.append(f'pyres_eqb (list_eqb Z.eqb) (mol_pack true {pmol_term(mm, data)}) (Ok {lst(list(data), zraw)})')
+        meta.append(('unrepresentable-pack', label))
+        cases.append(f'pyres_eqb unpacked_eqb (unpack {lst(list(data), zraw)}) (Ok {unpacked_term(mol2, ct2, size2, data)})')
+        meta.append(('unrepresentable-unpack', label))
+    for nneg in (-1, -3):
+        mm = one_carbon(n=nneg)
+        ck.case(('nonpositive-number', nneg))
+        try:
+            mm.pack(compressed=False)
+            ck.counterexample('limits-nonpositive-atom-number', 'MoleculeContainer.pack(check=True) accepts a negative atom number', {'numbers': [nneg]}, 'bytes', 'ValueError',
+                              'documented limits (atom numbers 1-4095)')
+        except ValueError:
+            pass   # rejected by the check: fine
+        except Exception as e:
+            ck.counterexample('limits-nonpositive-atom-number', f'MoleculeContainer.pack(check=True) passes a negative atom number to the packer: {type(e).__name__} (out-of-bounds write of seen[n] in C)',
+                              {'numbers': [nneg]}, repr(e), 'ValueError', 'documented limits (atom numbers 1-4095)',
+                              replay_py=REPLAY_PRE + f"m=MoleculeContainer(); m.add_atom('C', {nneg}); print(m.pack())")
+    ok, failing, log = coqcases.run_cases('c10m', 'Pack PackSpec PackApi PackRxnApi PackStereo', cases, extra=EXTRA, shard=150)
     ck.oblige('correspondence on malformed packs: truncations and corrupted bytes, unpack/pack_len == Coq model', ok and not failing, 'correspondence',
               log or str([meta[i] for i in failing[:5]]))
     ck.extra['correspondence_cases'] = ck.extra.get('correspondence_cases', 0) + len(cases)
@@ -331,6 +504,10 @@ def corr_reactions(ck, rng):
         pl = lambda ps: lst([lst(list(x), zraw) for x in ps])
         cases.append(f'pyres_eqb (list_eqb Z.eqb) (rxn_pack {pl(packs[:r])} {pl(packs[r:r + a])} {pl(packs[r + a:])}) (Ok {lst(list(data), zraw)})')
         meta.append(('rxn_pack', r, a, p))
+        if r + a + p <= 4:
+            pms = [pmol_term(x, pk) for x, pk in zip(mols, packs)]
+            cases.append(f'pyres_eqb (list_eqb Z.eqb) (rxn_api_pack true {lst(pms[:r])} {lst(pms[r:r + a])} {lst(pms[r + a:])}) (Ok {lst(list(data), zraw)})')
+            meta.append(('rxn_api_pack', r, a, p))
         try:
             ln = ReactionContainer.pack_len(data, compressed=False)
             exp = 'Ok (' + ', '.join(lst(x, zraw) for x in ln) + ')'
@@ -354,7 +531,39 @@ def corr_reactions(ck, rng):
                      'Ok (map (fun u => Z.of_nat (List.length (up_atoms u))) x, map (fun u => Z.of_nat (List.length (up_atoms u))) y, '
                      'map (fun u => Z.of_nat (List.length (up_atoms u))) z) | Err e => Err e end) (Ok (' + ', '.join(lst(x, zraw) for x in got) + '))')
         meta.append(('rxn_unpack', r, a, p))
-    ok, failing, log = coqcases.run_cases('c10r', 'Pack', cases, extra=EXTRA, shard=60)
+    # the 255 limit and a molecule outside the limits, at API level
+    c1 = smiles('C')
+    pk1 = c1.pack(compressed=False)
+    pm1 = pmol_term(c1, pk1)
+    big = smiles('CCO')
+    big.remap({1: 4096})
+    pmbig = pmol_term(big, bytes(64))
+    for (r, a, p) in ((256, 0, 1), (0, 256, 0), (1, 0, 256), (255, 0, 0), (255, 255, 1)):
+        rx = ReactionContainer([c1] * r, [c1] * p, [c1] * a)
+        ck.case(('rxn-limit', r, a, p))
+        ck.count('rxn:limit255')
+        try:
+            exp = f'Ok {lst(list(rx.pack(compressed=False)), zraw)}'
+        except ValueError:
+            exp = 'Err ValueError'
+        cases.append(f'pyres_eqb (list_eqb Z.eqb) (rxn_api_pack true (repeat {pm1} {r}) (repeat {pm1} {a}) (repeat {pm1} {p})) ({exp})')
+        meta.append(('rxn_api_limit', r, a, p))
+    for where in range(3):
+        sides = [[c1], [c1], [c1]]
+        sides[where] = [c1, big]
+        rx = ReactionContainer(sides[0], sides[2], sides[1])
+        ck.case(('rxn-outside', where))
+        try:
+            rx.pack(compressed=False)
+            exp = None
+            ck.counterexample(f'rxn-limits-not-checked:{where}', 'ReactionContainer.pack accepts a molecule outside the documented limits', {'role': where}, 'bytes', 'ValueError', 'documented limits')
+        except ValueError:
+            exp = 'Err ValueError'
+        if exp:
+            tl = [lst([pm1, pmbig]) if i == where else lst([pm1]) for i in range(3)]
+            cases.append(f'pyres_eqb (list_eqb Z.eqb) (rxn_api_pack true {tl[0]} {tl[1]} {tl[2]}) ({exp})')
+            meta.append(('rxn_api_outside', where))
+    ok, failing, log = coqcases.run_cases('c10r', 'Pack PackApi PackRxnApi PackStereo', cases, extra=EXTRA, shard=40)
     ck.oblige('correspondence: ReactionContainer.pack/unpack/pack_len == Coq model (repaired role split)', ok and not failing,
               'correspondence', log or str([meta[i] for i in failing[:5]]))
     ck.extra['correspondence_cases'] = ck.extra.get('correspondence_cases', 0) + len(cases)
@@ -463,7 +672,7 @@ def half_bits(x):
     return sign << 15 | ef << 10 | frac
 
 
-def layout_oracle(m):
+def layout_oracle(m, version=2, terminals_from_dict=False):
     """the published version 2 layout written from the docstring as ONE bit string (rebuild from scratch, independent
     of the codecs and of the Coq model); None when the molecule is outside the documented limits"""
     bits = []
@@ -474,7 +683,7 @@ def layout_oracle(m):
             raise OverflowError((v, w))
         bits.append(format(v, f'0{w}b'))
     try:
-        put(2, 8)
+        put(version, 8)
         put(len(m._atoms), 12)
         put(sum(bd.stereo is not None for *_, bd in m.bonds()), 12)
         for n, a in m._atoms.items():
@@ -505,9 +714,22 @@ def layout_oracle(m):
                 if k not in seen:
                     orders.append(int(bd) - 1)
                     if bd.stereo is not None:
-                        cts.append((m._stereo_cis_trans_terminals[n], bd.stereo))
-        ob = ''.join(format(o, '03b') for o in orders)
-        bits.append(ob + '0' * (-len(ob) % 8))
+                        # terminal atoms of the cumulene path whose central bond this is (taken from the paths, not from
+                        # the atom-keyed _stereo_cis_trans_terminals dict the packer reads)
+                        ends = [(p[0], p[-1]) for p in m.stereogenic_cumulenes
+                                if len(p) % 2 == 0 and {p[len(p) // 2 - 1], p[len(p) // 2]} == {n, k}]
+                        if terminals_from_dict:   # as the packer does (correspondence of the version 0 layout only)
+                            ends = [m._stereo_cis_trans_terminals[n]]
+                        if len(ends) != 1:
+                            return None
+                        cts.append((ends[0], bd.stereo))
+        if version == 2:
+            ob = ''.join(format(o, '03b') for o in orders)
+            bits.append(ob + '0' * (-len(ob) % 8))
+        else:   # version 0: 5 orders per 2 bytes, one zero bit first, last group zero padded
+            for i in range(0, len(orders), 5):
+                g = orders[i:i + 5] + [0] * (5 - len(orders[i:i + 5]))
+                bits.append('0' + ''.join(format(o, '03b') for o in g))
         for (tn, tm), sgn in cts:
             put(tn, 12)
             put(tm, 12)
@@ -530,34 +752,60 @@ def check_molecule(ck, kind, m, tag=''):
             data = m.pack(compressed=compressed)
             u = MoleculeContainer.unpack(data, compressed=compressed)
         except Exception as e:
-            ck.counterexample(f'roundtrip-raises:{kind}:{m}', f'pack/unpack raises {type(e).__name__}', {'smiles': str(m)}, repr(e), 'round trip', 'API round trip')
+            ck.counterexample(f'roundtrip-raises:{kind}:{mstr(m)}', f'pack/unpack raises {type(e).__name__}', {'smiles': mstr(m)}, repr(e), 'round trip', 'API round trip')
             return False
-        ck.case(('rt' + tag, kind, str(m), tuple(m._atoms), compressed))
+        ck.case(('rt' + tag, kind, mstr(m), tuple(m._atoms), compressed))
+        if only_labels_moved(m, u):
+            report_label_move(ck, m, u, 'pack -> unpack')
+            return False
         if observe(u) != observe(m):
-            ck.counterexample(f'roundtrip:{kind}:{m}:{list(m._atoms)[:3]}', 'pack -> unpack changes the molecule', {'smiles': str(m), 'numbers': list(m._atoms)},
+            ck.counterexample(f'roundtrip:{kind}:{mstr(m)}:{list(m._atoms)[:3]}', 'pack -> unpack changes the molecule', {'smiles': mstr(m), 'numbers': list(m._atoms)},
                               observe(u), observe(m), 'API round trip: numbers in order, attributes, neighbour order, orders, stereo',
-                              replay_py=REPLAY_PRE + f'm=smiles({str(m)!r}); u=MoleculeContainer.unpack(m.pack()); print(m, u, list(m), list(u))')
+                              replay_py=REPLAY_PRE + f'm=smiles({mstr(m)!r}); u=MoleculeContainer.unpack(m.pack()); print(m, u, list(m), list(u))')
             return False
         if MoleculeContainer.pack_len(data, compressed=compressed) != len(m):
-            ck.counterexample(f'pack_len:{kind}:{m}', 'pack_len differs from the atom count', {'smiles': str(m)},
+            ck.counterexample(f'pack_len:{kind}:{mstr(m)}', 'pack_len differs from the atom count', {'smiles': mstr(m)},
                               MoleculeContainer.pack_len(data, compressed=compressed), len(m), 'atom count')
             ok = False
         for (n, a), (_, c) in zip(m._atoms.items(), u._atoms.items()):
             if not (half_ok(a.x, c.x) and half_ok(a.y, c.y)):
-                ck.counterexample(f'xy:{kind}:{m}', 'coordinates not preserved to half precision', {'smiles': str(m), 'atom': n},
+                ck.counterexample(f'xy:{kind}:{mstr(m)}', 'coordinates not preserved to half precision', {'smiles': mstr(m), 'atom': n},
                                   [c.x, c.y], [a.x, a.y], 'independent half-float truncation')
                 ok = False
                 break
+    d0 = layout_oracle(m, version=0)
+    if d0 is not None:
+        ck.case(('v0' + tag, kind, mstr(m), tuple(m._atoms)))
+        try:
+            u0 = MoleculeContainer.unpack(d0, compressed=False)
+            if only_labels_moved(m, u0):
+                report_label_move(ck, m, u0, 'decoding the version 0 pack')
+                ok = False
+            elif observe(u0) != observe(m) or MoleculeContainer.pack_len(d0, compressed=False) != len(m):
+                ck.counterexample(f'v0-decode:{kind}:{mstr(m)}:{list(m._atoms)[:3]}', 'a version 0 pack (independent writer of the documented version 0 layout) decodes to another molecule',
+                                  {'smiles': mstr(m), 'numbers': list(m._atoms), 'pack': list(d0)}, observe(u0), observe(m), 'independent version 0 writer + API decode',
+                                  replay_py=REPLAY_PRE + f'print(MoleculeContainer.unpack(bytes({list(d0)!r}), compressed=False))')
+                ok = False
+        except Exception as e:
+            ck.counterexample(f'v0-decode-raises:{kind}:{mstr(m)}', f'decoding a version 0 pack raises {type(e).__name__}', {'smiles': mstr(m), 'pack': list(d0)}, repr(e), 'molecule',
+                              'independent version 0 writer + API decode')
+            ok = False
     want = layout_oracle(m)
     if want is not None:
         got = m.pack(compressed=False)
-        ck.case(('layout' + tag, kind, str(m), tuple(m._atoms)))
-        if bytes(got) != want:
+        ck.case(('layout' + tag, kind, mstr(m), tuple(m._atoms)))
+        if bytes(got) != want and shares_atom(m) and len(got) == len(want) and bytes(got[:len(got) - 4 * len(labels(m)) // 2]) == want[:len(got) - 4 * len(labels(m)) // 2]:
+            # only the cis/trans block differs: the record names another bond (known finding)
+            ck.counterexample('cis-trans-shared-atom', 'the cis/trans record written by pack names another double bond (two stereogenic double bonds share an atom)',
+                              {'numbers': list(m._atoms), 'labels': labels(m)}, list(got[-4 * (len(labels(m)) // 2):]), list(want[-4 * (len(labels(m)) // 2):]),
+                              'bit string written from the docstring (independent re-implementation)')
+            ok = False
+        elif bytes(got) != want:
             i = next((j for j in range(min(len(got), len(want))) if got[j] != want[j]), min(len(got), len(want)))
-            ck.counterexample(f'layout:{kind}:{m}:{list(m._atoms)[:3]}', f'pack bytes differ from the published version 2 layout (first difference at byte {i})',
-                              {'smiles': str(m), 'numbers': list(m._atoms)}, list(got[max(0, i - 2):i + 6]), list(want[max(0, i - 2):i + 6]),
+            ck.counterexample(f'layout:{kind}:{mstr(m)}:{list(m._atoms)[:3]}', f'pack bytes differ from the published version 2 layout (first difference at byte {i})',
+                              {'smiles': mstr(m), 'numbers': list(m._atoms)}, list(got[max(0, i - 2):i + 6]), list(want[max(0, i - 2):i + 6]),
                               'bit string written from the docstring (independent re-implementation)',
-                              replay_py=REPLAY_PRE + f'print(list(smiles({str(m)!r}).pack(compressed=False)))')
+                              replay_py=REPLAY_PRE + f'print(list(smiles({mstr(m)!r}).pack(compressed=False)))')
             ok = False
     return ok
 
@@ -698,6 +946,8 @@ def run(ck):
     timing['generate'] = round(time.time() - t0, 1); t0 = time.time()
     corr(ck, mods['unpack'], mols)
     timing['corr_molecules'] = round(time.time() - t0, 1); t0 = time.time()
+    corr_api(ck, mols)
+    timing['corr_api'] = round(time.time() - t0, 1); t0 = time.time()
     corr_malformed(ck, mods['unpack'], mols, rng)
     timing['corr_malformed'] = round(time.time() - t0, 1); t0 = time.time()
     corr_reactions(ck, rng)
